@@ -4,6 +4,18 @@ manifest stays valid while checks are added)."""
 import json
 
 claimed = {
+ "C03": dict(level="model_checking", engine="H",
+   text="explicit enumeration of every building-operation history up to depth 4 (quick) / 5 (thorough) over a 35-operation alphabet from 12 start states, each executed on a real Message and checked against the reference parser/encoder after its last step (all shorter histories are enumerated too, so every intermediate state is checked); the coherence of the three length representations is a property of histories, which is exactly what is enumerated",
+   note="attribute values come from fixed patterns; sizes stay within the 16-bit length field by construction (the property's precondition); plus Add of every length 0..3000 and the size boundary",
+   technique="explicit-state enumeration of operation histories on the real object against a reference model", ref="DESIGN.md section 2 C03"),
+ "C08": dict(level="model_checking", engine="H",
+   text="every history of up to 3 (quick) / 4 (thorough) uses of one Message over 72 uses, with retained storage and caller inputs poisoned between uses; differential oracle: the last use on the reused Message must equal the same use on a fresh Message with the same Type/TransactionID, byte for byte and field for field",
+   note="message family of 12 (sizes 20..1225 bytes); poison bytes 0xD7/0xFF/0x01/seed",
+   technique="explicit-state enumeration of use histories with a differential (fresh twin) oracle", ref="DESIGN.md section 2 C08"),
+ "C13": dict(level="model_checking", engine="H",
+   text="breadth-first search over the real Agent to a fixed point of (model state, full private state dump): all 251 reachable states of the 3-id x 4-deadline table x handler, every one of the 30 operations from every state, each compared (return value, event multiset, handler identity, message pointer) with the transaction-table model; plus all operation sequences of depth 4/5 without merging",
+   note="complete for the stated alphabet; long random sequences over many ids are not attempted",
+   technique="explicit-state model checking of the implementation against a reference model (BFS to fixed point, replay-to-reach)", ref="DESIGN.md section 2 C13"),
  "C04": dict(level="exploration", engine="I",
    text="bounded-exhaustive product of message shapes around the MAC (attributes before/after with every padding residue, second MAC, FINGERPRINT), key lengths on both sides of the 64-byte block, MAC variants and every single-bit flip; on every decodable input the verdict of MessageIntegrity.Check must equal an independent RFC 2104/5389 oracle and AddTo must append exactly the oracle's value; release and debug",
    note="attribute value lengths 0..5 (every residue mod 4); <=2 attributes before / <=2 after plus one 8/4 chain; the quantifier's 0..8 / 0..4 attribute counts are covered only by the chain",
